@@ -4,6 +4,7 @@ import (
 	"encoding/binary"
 	"fmt"
 	"math"
+	"sort"
 	"strings"
 	"time"
 )
@@ -769,6 +770,9 @@ func (vm *VM) execGetIter() error {
 		for k := range objVal.Val {
 			iter.keys = append(iter.keys, k)
 		}
+		// ascending key order, as in the interpreter: Go's map iteration
+		// order is random and a program's result must not depend on it
+		sort.Strings(iter.keys)
 	}
 
 	// Store iterator and push ID
